@@ -1215,6 +1215,48 @@ def _unroll_new_loops(fi, ref_fingerprints, module_consts, stats):
         i = 0
         while i < len(stmts):
             s = stmts[i]
+            # for a, b in zip(S, X) where S is a fixed-size local display ([[], []]): one copy of the body per slot of S
+            if isinstance(s, ast.For) and not s.orelse and isinstance(s.target, ast.Tuple) and isinstance(s.iter, ast.Call) and isinstance(s.iter.func, ast.Name) and s.iter.func.id == "zip" and len(s.iter.args) == len(s.target.elts) >= 2 and all(isinstance(t, ast.Name) for t in s.target.elts) and not s.iter.keywords:
+                fp = alpha._fingerprint(s, locs)[0]
+                nfix = None
+                for a_ in s.iter.args:
+                    if isinstance(a_, ast.Name):
+                        defs_ = [x for x in walk_function(fnode) if isinstance(x, (ast.Assign, ast.AnnAssign)) and any(isinstance(t, ast.Name) and t.id == a_.id for t in (x.targets if isinstance(x, ast.Assign) else [x.target]))]
+                        resized = any(isinstance(c, ast.Call) and isinstance(c.func, ast.Attribute) and isinstance(c.func.value, ast.Name) and c.func.value.id == a_.id and c.func.attr in ("append", "extend", "insert", "pop", "remove", "clear") for c in walk_function(fnode))
+                        if len(defs_) == 1 and isinstance(defs_[0].value, (ast.List, ast.Tuple)) and 1 < len(defs_[0].value.elts) <= 4 and not resized:
+                            nfix = len(defs_[0].value.elts)
+                    elif isinstance(a_, (ast.Tuple, ast.List)) and 1 < len(a_.elts) <= 4:
+                        nfix = nfix or len(a_.elts)
+                literal_ok = all(len(a_.elts) == nfix for a_ in s.iter.args if isinstance(a_, (ast.Tuple, ast.List)))
+                if nfix and literal_ok and fp not in ref_fingerprints and len(s.body) <= 4 and not _contains(s.body, (ast.Break, ast.Continue, ast.Return, ast.For, ast.While)):
+                    if not any(isinstance(n, ast.Name) and isinstance(n.ctx, ast.Store) and n.id in {t.id for t in s.target.elts} for b in s.body for n in ast.walk(b)):
+                        new = []
+                        for k in range(nfix):
+                            mp = {}
+                            for t, a_ in zip(s.target.elts, s.iter.args):
+                                if isinstance(a_, (ast.Tuple, ast.List)):
+                                    mp[t.id] = a_.elts[k]
+                                elif _value_like(a_):
+                                    mp[t.id] = ast.Subscript(value=_clone(a_), slice=ast.Constant(value=k), ctx=ast.Load())
+                                else:
+                                    mp = None
+                                    break
+                            if mp is None:
+                                new = None
+                                break
+                            body = _clone(s.body)
+                            holder = ast.Module(body=body, type_ignores=[])
+                            _Subst(mp).visit(holder)
+                            new.extend(holder.body)
+                        if new:
+                            for x in new:
+                                ast.copy_location(x, s)
+                                ast.fix_missing_locations(x)
+                            stmts[i : i + 1] = new
+                            stats.setdefault("#unrolled", []).append("%s:zip" % fi.qual)
+                            done += 1
+                            i += len(new)
+                            continue
             if isinstance(s, ast.For) and not s.orelse and isinstance(s.target, ast.Name):
                 seq = _const_seq(s.iter, module_consts)
                 if seq is None and isinstance(s.iter, ast.Attribute) and isinstance(s.iter.value, ast.Name) and s.iter.value.id in ("self", "cls"):
